@@ -69,14 +69,14 @@ type script struct {
 	Seed   int64  `json:"seed,omitempty"`
 	Shape  string `json:"shape,omitempty"`
 	Size   int    `json:"size,omitempty"`
-	Deep   int    `json:"deep,omitempty"` // shape "deepwide": length of the common chain below the wide level
+	Deep   int    `json:"deep,omitempty"`   // shape "deepwide": length of the common chain below the wide level
 	Budget int    `json:"budget,omitempty"` // scheduler steps before the fair suffix
 	Loss   int    `json:"loss,omitempty"`
 	Dup    int    `json:"dup,omitempty"`
 	Expire int    `json:"expire,omitempty"`
 	Inject int    `json:"inject,omitempty"`
 	Create int    `json:"create,omitempty"`
-	Fat    bool   `json:"fat,omitempty"` // large payloads so that lists are split into several messages
+	Fat    bool   `json:"fat,omitempty"`  // large payloads so that lists are split into several messages
 	Priv   bool   `json:"priv,omitempty"` // C15: nodes have DIDs, A creates private transactions for {A, B}
 }
 
@@ -205,11 +205,11 @@ type keyRes struct{}
 
 type fakeConn struct {
 	grpc.Connection
-	sim        *sim
-	owner, to  string
-	peer       transport.Peer
-	connected  bool
-	authed     bool
+	sim       *sim
+	owner, to string
+	peer      transport.Peer
+	connected bool
+	authed    bool
 }
 
 // Send may be called from goroutines of the code under test (the notifier's retry goroutine makes its first attempt at
